@@ -15,15 +15,15 @@ META = dict(
     design_ref="DESIGN.md §5 C35",
     technique="numerical inversion monitor: the real QuadKerBase.integrand (N-space basis x Talbot path x jacobian x prefactor) integrated with scipy.quad exactly as run_op_integration does (limits 0.5..0.95, epsabs 1e-12, epsrel 1e-5, limit 100) and, as a sharp structural monitor, with the Mellin cut reduced to 0.0005; both compared with an exact-rational Lagrange basis",
     level_text="Randomised exploration over log grids (4-12 points, x_min 1e-6..0.1, degree 1-4), every basis function at every node below 1 and at random interior points, non-singlet and singlet contour. The fine-cut monitor decides each evaluation to 1e-5 (quad's own accuracy), so a wrong coefficient, jacobian, prefactor or path/jacobian mismatch cannot hide; the solver-cut monitor bounds the truncation error of the solver's own limits.",
-    level_note="Trusted base: vlib/oracles/interp.py (Interpolation.rst in exact rationals), scipy.integrate.quad. The solver-cut monitor is applied to quasi-uniform (jittered geometric) grids only; its tolerances (5e-3 at nodes, 5e-2 at interior points for degree>=2) are calibrated on 120 such grids of the tree (worst 1.4e-3 / 1.8e-2; on irregular grids the cut alone costs up to 3e-2) and shown to be pure truncation error (it vanishes like 1e-3 -> 6e-7 -> 2e-11 for cut 0.05 -> 0.02 -> 0.01); DESIGN.md's 2e-4 was under-calibrated. Any admissible contour gives the same integral, so a changed contour parameter is visible only through accuracy.",
+    level_note="Trusted base: vlib/oracles/interp.py (Interpolation.rst in exact rationals), scipy.integrate.quad. The solver-cut monitor is applied to quasi-uniform (jittered geometric) grids only; its tolerances (1e-2 at nodes, 8e-2 at interior points for degree>=2) are about 3x the worst truncation error seen on ~450 such grids of the tree (3.2e-3 / 2.2e-2 in the thorough run; on irregular grids the cut alone costs up to 3e-2) and shown to be pure truncation error (it vanishes like 1e-3 -> 6e-7 -> 2e-11 for cut 0.05 -> 0.02 -> 0.01); DESIGN.md's 2e-4 was under-calibrated. Any admissible contour gives the same integral, so a changed contour parameter is visible only through accuracy.",
     rule="case = (grid, degree, contour class, inversion point): all basis functions inverted at that point; distinct by grid sha/point; non-trivial = at least one inversion actually integrated (support reaches above the point) with |exact value| or |integral| > 1e-3, and the grid has more nodes than degree+1",
     min_nontrivial=150,
     required_hits=["solver_cut_node", "solver_cut_interior", "fine_cut"],
     max_inconclusive_frac=0.05,
 )
 
-TOL_NODE = 5e-3
-TOL_INTERIOR = 5e-2
+TOL_NODE = 1e-2
+TOL_INTERIOR = 8e-2
 TOL_FINE = 1e-5
 CUT_SOLVER = 5e-2  # eko.evolution_operator.Operator default mellin_cut, observed from the class below
 CUT_FINE = 5e-4
